@@ -240,6 +240,58 @@ class Prop:
         return None
 
 
+class Composite(Prop):
+    """A property checked through more than one harness: cases are dispatched on case["kind"].
+    `parts` = [(share, Prop)]; every part is an ordinary Prop restricted to this property's tag."""
+
+    parts: list[tuple[int, Prop]] = []
+
+    def _part(self, case: dict[str, Any]) -> Prop:
+        for _, p in self.parts:
+            if case.get("kind") in getattr(p, "kinds", ()):
+                return p
+        return self.parts[0][1]
+
+    def corpus(self):
+        return Prop.corpus(self)
+
+    def generate(self, rng, tier, index):
+        total = sum(w for w, _ in self.parts)
+        r = index % total
+        for w, p in self.parts:
+            if r < w:
+                return p.generate(rng, tier, index)
+            r -= w
+        raise AssertionError
+
+    def exhaustive(self, tier):
+        return [c for _, p in self.parts for c in p.exhaustive(tier)]
+
+    def run_impl(self, case):
+        return self._part(case).run_impl(case)
+
+    def model_request(self, case, impl):
+        return self._part(case).model_request(case, impl)
+
+    def compare(self, case, impl, model):
+        return self._part(case).compare(case, impl, model)
+
+    def monitor(self, case, impl):
+        return self._part(case).monitor(case, impl)
+
+    def nontrivial(self, case, impl):
+        return self._part(case).nontrivial(case, impl)
+
+    def features(self, case, impl):
+        return [f"{case.get('kind')}:{f}" for f in self._part(case).features(case, impl)]
+
+    def shrink(self, case):
+        return self._part(case).shrink(case)
+
+    def known(self, case, impl, failure):
+        return self._part(case).known(case, impl, failure)
+
+
 def case_hash(case: dict[str, Any]) -> str:
     c = {k: v for k, v in case.items() if k not in ("seed", "idx", "origin")}
     return hashlib.sha1(json.dumps(c, sort_keys=True, default=str).encode()).hexdigest()[:16]
